@@ -12,6 +12,11 @@
 //!       and, when the scenario carries `exp`, the direct run must show what the spec expects.
 //! `c12 random --seed S --n N --out trace.ndjson --results r.ndjson`
 //!     the same with seeded random long scripts (latencies, silences, long failure runs).
+//! `c12 wire --scenarios f.ndjson --out trace.ndjson` / `c12 wire-random --seed S --n N --out ..`
+//!     WIRE LEVEL: `{mode, pol, wire:[{need, frames}]}` - the real OKX public-trades connector (only its
+//!     url replaced) runs `init_market_stream` against a loopback websocket exchange that plays the
+//!     scripted frames of every connection (data before / between / after the per-subscription
+//!     confirmations, multi-trade frames, garbage) and closes -> Trace_Reconnect.tla (ResetWire)
 //! `c12 merge-run --scenarios f.ndjson --out trace.ndjson` / `c12 merge-random --seed S --n N --out ..`
 //!     drives the REAL `barter_integration::stream::merge::merge` over two mpsc_unbounded channels with
 //!     the given schedule of sends / closes / polls (manual polls) -> Trace_Merge.tla
@@ -48,7 +53,7 @@ use serde::{Deserialize, Serialize};
 use serde_json::{Value, json};
 use std::{
     pin::Pin,
-    sync::Mutex,
+    sync::{Arc, Mutex},
     task::{Context, Poll},
     time::Duration,
 };
@@ -665,6 +670,325 @@ fn random_schedule(rng: &mut rand::rngs::StdRng) -> Vec<String> {
     ops
 }
 
+// ---------------------------------------------------------------------------------------------
+// wire level: the REAL OKX public-trades connection against a loopback websocket exchange
+// ---------------------------------------------------------------------------------------------
+mod wire {
+    //! `LoopOkx` is the real `Okx` connector with one difference: `url()` points at the harness'
+    //! loopback websocket server. Subscriber, subscription validator, subscription response,
+    //! request payload, market naming, message type (`OkxTrades`), transformer
+    //! (`StatelessTransformer`), `ExchangeWsStream::init`, `ExchangeStream` and the whole
+    //! `init_market_stream` chain are the production code. The server plays the scripted frames of
+    //! each connection and closes; the consumer reads the reconnecting stream until the last
+    //! scripted connection's notice. Real clock: instants are not observed here (all `at` = 0).
+    use super::*;
+    use barter_data::{
+        ExchangeWsStream,
+        exchange::{
+            PingInterval,
+            okx::{Okx, channel::OkxChannel, market::OkxMarket, subscription::OkxSubResponse, trade::OkxTrades},
+            subscription::ExchangeSub,
+        },
+        subscription::trade::{PublicTrade, PublicTrades},
+        transformer::stateless::StatelessTransformer,
+    };
+    use futures::SinkExt;
+    use std::{collections::HashMap, sync::OnceLock};
+
+    static LOOP_URL: OnceLock<String> = OnceLock::new();
+    pub static LOG: Mutex<Vec<Value>> = Mutex::new(Vec::new());
+
+    fn log(v: Value) {
+        LOG.lock().unwrap_or_else(|p| p.into_inner()).push(v);
+    }
+
+    #[derive(Copy, Clone, Eq, PartialEq, Ord, PartialOrd, Hash, Debug, Default, Deserialize, Serialize)]
+    pub struct LoopOkx;
+    #[derive(Clone, Debug)]
+    pub struct LChan(&'static str);
+    impl AsRef<str> for LChan {
+        fn as_ref(&self) -> &str {
+            self.0
+        }
+    }
+    #[derive(Clone, Debug)]
+    pub struct LMkt(smol_str::SmolStr);
+    impl AsRef<str> for LMkt {
+        fn as_ref(&self) -> &str {
+            &self.0
+        }
+    }
+
+    impl Connector for LoopOkx {
+        const ID: ExchangeId = <Okx as Connector>::ID;
+        type Channel = LChan;
+        type Market = LMkt;
+        type Subscriber = <Okx as Connector>::Subscriber;
+        type SubValidator = <Okx as Connector>::SubValidator;
+        type SubResponse = OkxSubResponse;
+        fn url() -> Result<url::Url, SocketError> {
+            url::Url::parse(LOOP_URL.get().expect("loopback server started")).map_err(SocketError::UrlParse)
+        }
+        fn ping_interval() -> Option<PingInterval> {
+            Okx::ping_interval()
+        }
+        fn requests(subs: Vec<ExchangeSub<Self::Channel, Self::Market>>) -> Vec<WsMessage> {
+            Okx::requests(subs.into_iter().map(|s| ExchangeSub { channel: OkxChannel(s.channel.0), market: OkxMarket(s.market.0) }).collect())
+        }
+        // expected_responses, subscription_timeout: the trait defaults, as for Okx
+    }
+
+    type WSub = Subscription<LoopOkx, MarketDataInstrument, PublicTrades>;
+    fn as_okx(s: &WSub) -> Subscription<Okx, MarketDataInstrument, PublicTrades> {
+        Subscription::new(Okx, s.instrument.clone(), PublicTrades)
+    }
+    impl Identifier<LChan> for WSub {
+        fn id(&self) -> LChan {
+            let c: OkxChannel = as_okx(self).id();
+            LChan(c.0)
+        }
+    }
+    impl Identifier<LMkt> for WSub {
+        fn id(&self) -> LMkt {
+            let m: OkxMarket = as_okx(self).id();
+            LMkt(m.0)
+        }
+    }
+    impl StreamSelector<MarketDataInstrument, PublicTrades> for LoopOkx {
+        type SnapFetcher = NoInitialSnapshots;
+        type Stream = ExchangeWsStream<StatelessTransformer<Self, MarketDataInstrument, PublicTrades, OkxTrades>>;
+    }
+
+    const INSTR: [(&str, &str, &str); 3] = [("btc", "usdt", "BTC-USDT"), ("eth", "usdt", "ETH-USDT"), ("sol", "usdt", "SOL-USDT")];
+
+    fn instr(j: usize) -> MarketDataInstrument {
+        MarketDataInstrument::from((INSTR[j].0, INSTR[j].1, MarketDataInstrumentKind::Spot))
+    }
+
+    #[derive(Clone, Debug)]
+    pub struct Frame {
+        t: String,
+        vs: Vec<i64>,
+    }
+    #[derive(Clone, Debug)]
+    pub struct Conn {
+        need: usize,
+        frames: Vec<Frame>,
+    }
+
+    pub fn parse_wire(v: &Value) -> Vec<Conn> {
+        v["wire"]
+            .as_array()
+            .expect("wire")
+            .iter()
+            .map(|c| Conn {
+                need: i(c, "need") as usize,
+                frames: c["frames"]
+                    .as_array()
+                    .expect("frames")
+                    .iter()
+                    .map(|f| Frame { t: s(f, "t").to_string(), vs: f["vs"].as_array().expect("vs").iter().map(|x| x.as_i64().expect("v")).collect() })
+                    .collect(),
+            })
+            .collect()
+    }
+
+    /// instrument a data frame is about: rotates over the connection's subscriptions
+    fn frame_instr(first_v: i64, need: usize) -> usize {
+        (first_v as usize) % need
+    }
+
+    fn text_of(f: &Frame, conf_no: usize, need: usize) -> String {
+        match f.t.as_str() {
+            "conf" => json!({"event": "subscribe", "arg": {"channel": "trades", "instId": INSTR[conf_no % need].2}}).to_string(),
+            "garbage" => json!({"garbage": f.vs[0]}).to_string(),
+            "data" => {
+                let inst = INSTR[frame_instr(f.vs[0], need)].2;
+                let data: Vec<Value> = f
+                    .vs
+                    .iter()
+                    .map(|v| json!({"instId": inst, "tradeId": v.to_string(), "px": "42219.9", "sz": format!("0.{v}"), "side": if v % 2 == 0 { "buy" } else { "sell" }, "ts": "1630048897897"}))
+                    .collect();
+                json!({"arg": {"channel": "trades", "instId": inst}, "data": data}).to_string()
+            }
+            t => usage(&format!("bad frame kind {t}")),
+        }
+    }
+
+    /// The loopback exchange: plays one scripted connection per accepted socket, then closes it.
+    async fn serve(listener: Arc<tokio::net::TcpListener>, conns: Vec<Conn>) {
+        for c in conns {
+            let Ok((stream, _)) = listener.accept().await else { return };
+            let _ = stream.set_nodelay(true);
+            log(line("InitCall", "", 0, 0, ""));
+            let Ok(mut ws) = tokio_tungstenite::accept_async(stream).await else { continue };
+            // the subscribe request of the real connector: {"op":"subscribe","args":[{channel,instId}..]}
+            let req = loop {
+                match ws.next().await {
+                    Some(Ok(WsMessage::Text(t))) if t.as_str() != "ping" => break serde_json::from_str::<Value>(t.as_str()).unwrap_or(Value::Null),
+                    Some(Ok(_)) => continue,
+                    _ => break Value::Null,
+                }
+            };
+            let args = req["args"].as_array().cloned().unwrap_or_default();
+            let ok = req["op"] == "subscribe" && args.len() == c.need && args.iter().enumerate().all(|(j, a)| a["channel"] == "trades" && a["instId"] == INSTR[j].2);
+            if !ok {
+                log(line("Emit", "Foreign", -2, 0, "stream")); // a subscribe request OKX would not understand
+            }
+            let mut conf_no = 0;
+            for f in &c.frames {
+                let text = text_of(f, conf_no, c.need);
+                conf_no += (f.t == "conf") as usize;
+                if ws.send(WsMessage::text(text)).await.is_err() {
+                    break;
+                }
+            }
+            let _ = ws.close(None).await;
+            // drain until the client is gone, so that the close handshake can complete
+            let _ = tokio::time::timeout(Duration::from_millis(500), async { while let Some(Ok(_)) = ws.next().await {} }).await;
+        }
+    }
+
+    pub static TRANSPORT_ERRS: Mutex<usize> = Mutex::new(0);
+
+    /// projection of a wire-level output; `None` = a transport-closure error (the socket closing is
+    /// reported as an error item before the stream ends; not an item of the connection)
+    fn project_wire(ev: &MarketStreamResult<MarketDataInstrument, PublicTrade>, where_is: &HashMap<i64, usize>) -> Option<(&'static str, i64)> {
+        Some(match ev {
+            Event::Reconnecting(origin) => ("Notice", if *origin == ExchangeId::Okx { 0 } else { -1 }),
+            Event::Item(Ok(me)) => {
+                let v: i64 = me.kind.id.parse().unwrap_or(-1);
+                let right_instrument = where_is.get(&v).map(|j| me.instrument == instr(*j)).unwrap_or(false);
+                if right_instrument && me.exchange == ExchangeId::Okx { ("Item", v) } else { ("Foreign", v) }
+            }
+            Event::Item(Err(DataError::Socket(text))) => {
+                if let Some(pos) = text.find("{\"garbage\":") {
+                    let digits: String = text[pos + 11..].chars().take_while(|c| c.is_ascii_digit()).collect();
+                    ("Err", digits.parse().unwrap_or(-1))
+                } else if text.contains("tradeId") || text.contains("subscribe") {
+                    ("Foreign", -1) // a data frame / confirmation that surfaced as an error
+                } else {
+                    *TRANSPORT_ERRS.lock().unwrap() += 1;
+                    return None;
+                }
+            }
+            Event::Item(Err(e)) => project_err(e),
+        })
+    }
+
+    pub async fn scenario(listener: Arc<tokio::net::TcpListener>, raw: &Value) -> Vec<Value> {
+        let conns = parse_wire(raw);
+        let handled = s(raw, "mode") == "handler";
+        let p = &raw["pol"];
+        let pol = ReconnectionBackoffPolicy { backoff_ms_initial: i(p, "b0") as u64, backoff_multiplier: i(p, "mult") as u8, backoff_ms_max: i(p, "max") as u64 };
+        let need = conns.first().map(|c| c.need).unwrap_or(2);
+        let mut where_is = HashMap::new();
+        for c in &conns {
+            assert_eq!(c.need, need, "one subscription set per scenario");
+            for f in c.frames.iter().filter(|f| f.t == "data") {
+                for v in &f.vs {
+                    where_is.insert(*v, frame_instr(f.vs[0], c.need));
+                }
+            }
+        }
+        let total: usize = conns.iter().map(|c| c.frames.iter().map(|f| f.vs.len()).sum::<usize>() + 2).sum::<usize>() * 2 + 8;
+        let nconn = conns.len();
+        LOG.lock().unwrap().clear();
+        let mut reset = json!({"a": "ResetWire", "k": "", "v": 0, "at": 0, "via": "", "mode": raw["mode"], "pol": raw["pol"], "wire": raw["wire"]});
+        reset["script"] = json!([]);
+        let server = tokio::spawn(serve(listener, conns));
+        let quiet = Duration::from_secs(8);
+        let consumer = tokio::spawn(async move {
+            if nconn == 0 {
+                return "cut";
+            }
+            let subs: Vec<WSub> = (0..need).map(|j| Subscription::new(LoopOkx, instr(j), PublicTrades)).collect();
+            let stream = match tokio::time::timeout(quiet, init_market_stream(pol, subs)).await {
+                Err(_) => return "quiet",
+                Ok(Err(_)) => return "nostream",
+                Ok(Ok(stream)) => stream,
+            };
+            let mut stream: Pin<Box<dyn Stream<Item = MarketStreamResult<MarketDataInstrument, PublicTrade>> + Send>> = Box::pin(stream);
+            let (mut notices, mut n) = (0usize, 0usize);
+            loop {
+                match tokio::time::timeout(quiet, stream.next()).await {
+                    Err(_) => return "quiet",
+                    Ok(None) => return "ended",
+                    Ok(Some(ev)) => {
+                        let Some((k, v)) = project_wire(&ev, &where_is) else { continue };
+                        let via = if handled && k == "Err" { "handler" } else { "stream" };
+                        log(line("Emit", k, v, 0, via));
+                        n += 1;
+                        notices += (k == "Notice") as usize;
+                        if notices == nconn {
+                            return "cut";
+                        }
+                        if n > total {
+                            return "runaway";
+                        }
+                    }
+                }
+            }
+        });
+        let status = consumer.await.unwrap_or("panic");
+        server.abort();
+        let mut lines = vec![reset];
+        lines.append(&mut LOG.lock().unwrap());
+        lines.push(line("Stop", status, 0, 0, ""));
+        lines
+    }
+
+    pub fn random_scenario(rng: &mut rand::rngs::StdRng) -> Value {
+        let need = rng.random_range(2..=3);
+        let mut v = 0i64;
+        let mut wire = vec![];
+        for _ in 0..rng.random_range(1..=4) {
+            let mut frames: Vec<Value> = vec![];
+            let frame = |rng: &mut rand::rngs::StdRng, v: &mut i64| {
+                if rng.random_bool(0.15) {
+                    *v += 1;
+                    json!({"t": "garbage", "vs": [*v]})
+                } else {
+                    let n = rng.random_range(1..=3);
+                    let vs: Vec<i64> = (0..n).map(|_| { *v += 1; *v }).collect();
+                    json!({"t": "data", "vs": vs})
+                }
+            };
+            for _ in 0..rng.random_range(0..=2) {
+                frames.push(frame(rng, &mut v));
+            }
+            for c in 0..need {
+                frames.push(json!({"t": "conf", "vs": []}));
+                if c + 1 < need {
+                    for _ in 0..rng.random_range(0..=3) {
+                        frames.push(frame(rng, &mut v));
+                    }
+                }
+            }
+            for _ in 0..rng.random_range(0..=8) {
+                frames.push(frame(rng, &mut v));
+            }
+            wire.push(json!({"need": need, "frames": frames}));
+        }
+        json!({"mode": if rng.random_bool(0.5) { "stream" } else { "handler" }, "pol": {"b0": 125, "mult": 2, "max": 60000}, "wire": wire})
+    }
+
+    pub fn run(scns: &[Value], out: &mut Out) -> Value {
+        let rt = tokio::runtime::Builder::new_current_thread().enable_all().build().expect("runtime");
+        let conns: usize = scns.iter().map(|s| s["wire"].as_array().map(|w| w.len()).unwrap_or(0)).sum();
+        rt.block_on(async {
+            let listener = Arc::new(tokio::net::TcpListener::bind("127.0.0.1:0").await.expect("bind loopback"));
+            let _ = LOOP_URL.set(format!("ws://{}", listener.local_addr().expect("addr")));
+            for raw in scns {
+                for l in scenario(listener.clone(), raw).await {
+                    out.line(&l);
+                }
+            }
+        });
+        json!({"scenarios": scns.len(), "connections": conns, "transport_errors_skipped": *TRANSPORT_ERRS.lock().unwrap()})
+    }
+}
+
 fn main() {
     let args = Args::parse();
     match args.cmd.as_str() {
@@ -700,6 +1024,18 @@ fn main() {
                 merge_schedule(ops, variant.unwrap_or(n), &mut out);
             }
             println!("{}", json!({"schedules": schedules.len(), "lines": out.finish()}));
+        }
+        "wire" | "wire-random" => {
+            let scns: Vec<Value> = if args.cmd == "wire" {
+                read_ndjson(args.req("scenarios"))
+            } else {
+                let mut rng = rng(args.u64("seed", 1));
+                (0..args.usize("n", 100)).map(|_| wire::random_scenario(&mut rng)).collect()
+            };
+            let mut out = Out::create(args.req("out"));
+            let mut summary = wire::run(&scns, &mut out);
+            summary["lines"] = json!(out.finish());
+            println!("{summary}");
         }
         c => usage(&format!("unknown command {c}")),
     }
